@@ -187,9 +187,9 @@ theorem delim_after (w2 : Bytes) (x : Nat) (tl : Bytes) (hw : wsOk w2 = true) (h
 
 
 /-- dispatch on the first byte of a value after separators -/
-theorem parseValue_scalar (sd : SD) (D : Bytes → Nat) (hsd : SdSpec sd D) (c : Cst) (f lvl : Nat) (pre rest : Bytes)
-    (hs : match c with | .arr .. => False | .obj .. => False | _ => True)
-    (hv : c.valid = true) (hl : lvl ≤ maxNesting) (hp : sepOk pre = true) (hd : delim rest = true) :
+theorem parseValue_scalar (sd : SD) (D : Bytes → Nat) (ok : NumTok → Bool) (hsd : SdSpecOn ok sd D) (c : Cst) (f lvl : Nat)
+    (pre rest : Bytes) (hs : match c with | .arr .. => False | .obj .. => False | _ => True)
+    (hv : c.valid = true) (hk : c.toksOk ok = true) (hl : lvl ≤ maxNesting) (hp : sepOk pre = true) (hd : delim rest = true) :
     parseValue sd (f + 1) lvl (pre ++ c.text ++ rest) = .ok (some (c.value D), rest) := by
   obtain ⟨b, r, htx, hb⟩ := c.text_head
   rw [parseValue_succ, if_neg (by omega), List.append_assoc, htx, List.cons_append,
@@ -235,7 +235,7 @@ theorem parseValue_scalar (sd : SD) (D : Bytes → Nat) (hsd : SdSpec sd D) (c :
     rw [if_neg (by omega), if_neg (by omega), if_neg (by omega), if_neg (by omega), if_neg (by omega), if_neg (by omega),
       if_neg (by omega), if_neg (by omega), if_neg (by omega), if_neg (by omega), if_pos (by omega)]
     have htx' : t.text = b :: r := htx
-    rw [← List.cons_append, ← htx', parseNumber_dbl sd D hsd t rest hv hd]
+    rw [← List.cons_append, ← htx', parseNumber_dbl sd D ok hsd t rest hv (by simpa [Cst.toksOk] using hk) hd]
     simp [Cst.value]
   | arr _ _ => exact hs.elim
   | obj _ _ => exact hs.elim
@@ -285,11 +285,12 @@ theorem value_head_ne125 (w3 : Bytes) (v : Cst) (X : Bytes) (hw : wsOk w3 = true
   exact ws_head_ne w3 b 125 _ hw (by unfold valueHead at hb; omega) (by decide) r
 
 mutual
-  theorem parseValue_cst (sd : SD) (D : Bytes → Nat) (hsd : SdSpec sd D) :
-      ∀ (c : Cst) (f lvl : Nat) (pre rest : Bytes), c.valid = true → lvl + c.depth ≤ maxNesting → c.need ≤ f →
+  theorem parseValue_cst (sd : SD) (D : Bytes → Nat) (ok : NumTok → Bool) (hsd : SdSpecOn ok sd D) :
+      ∀ (c : Cst) (f lvl : Nat) (pre rest : Bytes), c.valid = true → c.toksOk ok = true → lvl + c.depth ≤ maxNesting → c.need ≤ f →
         sepOk pre = true → delim rest = true →
         parseValue sd f lvl (pre ++ c.text ++ rest) = .ok (some (c.value D), rest)
-    | .arr ws0 items, f, lvl, pre, rest, hv, hl, hf, hp, hd => by
+    | .arr ws0 items, f, lvl, pre, rest, hv, hk, hl, hf, hp, hd => by
+      simp only [Cst.toksOk] at hk
       simp only [Cst.need] at hf
       obtain ⟨f, rfl⟩ : ∃ g, f = g + 1 := ⟨f - 1, by omega⟩
       simp only [Cst.depth] at hl
@@ -300,7 +301,7 @@ mutual
       cases hi : items.isNil
       · -- non-empty
         simp only [Bool.false_eq_true, ↓reduceIte, List.nil_append]
-        have := parseArr_items sd D hsd items f lvl [] rest [] hi hv.2 (by omega) (by omega) sepOk_nil
+        have := parseArr_items sd D ok hsd items f lvl [] rest [] hi hv.2 hk (by omega) (by omega) sepOk_nil
         simp only [List.nil_append] at this
         rw [this]; simp [Cst.value]
       · -- empty array: `[ ws0 ]`
@@ -311,7 +312,8 @@ mutual
           obtain ⟨f, rfl⟩ : ∃ g, f = g + 2 := ⟨f - 2, by omega⟩
           rw [parseArr_close sd f lvl ws0 rest [] (wsOk_sepOk _ hv.1) (by omega)]
           simp [Cst.value, Items.values]
-    | .obj ws0 ms, f, lvl, pre, rest, hv, hl, hf, hp, hd => by
+    | .obj ws0 ms, f, lvl, pre, rest, hv, hk, hl, hf, hp, hd => by
+      simp only [Cst.toksOk] at hk
       simp only [Cst.need] at hf
       obtain ⟨f, rfl⟩ : ∃ g, f = g + 1 := ⟨f - 1, by omega⟩
       simp only [Cst.depth] at hl
@@ -321,7 +323,7 @@ mutual
       simp only [↓reduceIte]
       cases hi : ms.isNil
       · simp only [Bool.false_eq_true, ↓reduceIte, List.nil_append]
-        have := parseObj_members sd D hsd ms f lvl [] rest [] hi hv.2 (by omega) (by omega) sepOk_nil
+        have := parseObj_members sd D ok hsd ms f lvl [] rest [] hi hv.2 hk (by omega) (by omega) sepOk_nil
         simp only [List.nil_append] at this
         rw [this]; simp [Cst.value]
       · cases ms with
@@ -331,31 +333,32 @@ mutual
           obtain ⟨f, rfl⟩ : ∃ g, f = g + 1 := ⟨f - 1, by omega⟩
           rw [parseObj_close sd f lvl ws0 rest [] (wsOk_sepOk _ hv.1)]
           simp [Cst.value, Members.values]
-    | .null, f, lvl, pre, rest, hv, hl, hf, hp, hd => by
+    | .null, f, lvl, pre, rest, hv, hk, hl, hf, hp, hd => by
       obtain ⟨f, rfl⟩ : ∃ g, f = g + 1 := ⟨f - 1, by simp only [Cst.need] at hf; omega⟩
-      exact parseValue_scalar sd D hsd .null f lvl pre rest trivial hv (by omega) hp hd
-    | .tru, f, lvl, pre, rest, hv, hl, hf, hp, hd => by
+      exact parseValue_scalar sd D ok hsd .null f lvl pre rest trivial hv hk (by omega) hp hd
+    | .tru, f, lvl, pre, rest, hv, hk, hl, hf, hp, hd => by
       obtain ⟨f, rfl⟩ : ∃ g, f = g + 1 := ⟨f - 1, by simp only [Cst.need] at hf; omega⟩
-      exact parseValue_scalar sd D hsd .tru f lvl pre rest trivial hv (by omega) hp hd
-    | .fals, f, lvl, pre, rest, hv, hl, hf, hp, hd => by
+      exact parseValue_scalar sd D ok hsd .tru f lvl pre rest trivial hv hk (by omega) hp hd
+    | .fals, f, lvl, pre, rest, hv, hk, hl, hf, hp, hd => by
       obtain ⟨f, rfl⟩ : ∃ g, f = g + 1 := ⟨f - 1, by simp only [Cst.need] at hf; omega⟩
-      exact parseValue_scalar sd D hsd .fals f lvl pre rest trivial hv (by omega) hp hd
-    | .int neg n, f, lvl, pre, rest, hv, hl, hf, hp, hd => by
+      exact parseValue_scalar sd D ok hsd .fals f lvl pre rest trivial hv hk (by omega) hp hd
+    | .int neg n, f, lvl, pre, rest, hv, hk, hl, hf, hp, hd => by
       obtain ⟨f, rfl⟩ : ∃ g, f = g + 1 := ⟨f - 1, by simp only [Cst.need] at hf; omega⟩
-      exact parseValue_scalar sd D hsd (.int neg n) f lvl pre rest trivial hv (by omega) hp hd
-    | .dbl t, f, lvl, pre, rest, hv, hl, hf, hp, hd => by
+      exact parseValue_scalar sd D ok hsd (.int neg n) f lvl pre rest trivial hv hk (by omega) hp hd
+    | .dbl t, f, lvl, pre, rest, hv, hk, hl, hf, hp, hd => by
       obtain ⟨f, rfl⟩ : ∃ g, f = g + 1 := ⟨f - 1, by simp only [Cst.need] at hf; omega⟩
-      exact parseValue_scalar sd D hsd (.dbl t) f lvl pre rest trivial hv (by omega) hp hd
-    | .str s, f, lvl, pre, rest, hv, hl, hf, hp, hd => by
+      exact parseValue_scalar sd D ok hsd (.dbl t) f lvl pre rest trivial hv hk (by omega) hp hd
+    | .str s, f, lvl, pre, rest, hv, hk, hl, hf, hp, hd => by
       obtain ⟨f, rfl⟩ : ∃ g, f = g + 1 := ⟨f - 1, by simp only [Cst.need] at hf; omega⟩
-      exact parseValue_scalar sd D hsd (.str s) f lvl pre rest trivial hv (by omega) hp hd
+      exact parseValue_scalar sd D ok hsd (.str s) f lvl pre rest trivial hv hk (by omega) hp hd
 
-  theorem parseArr_items (sd : SD) (D : Bytes → Nat) (hsd : SdSpec sd D) :
+  theorem parseArr_items (sd : SD) (D : Bytes → Nat) (ok : NumTok → Bool) (hsd : SdSpecOn ok sd D) :
       ∀ (items : Items) (f lvl : Nat) (pre rest : Bytes) (acc : List JVal), items.isNil = false →
-        items.valid = true → lvl + 1 + items.depth ≤ maxNesting → items.need ≤ f → sepOk pre = true →
+        items.valid = true → items.toksOk ok = true → lvl + 1 + items.depth ≤ maxNesting → items.need ≤ f → sepOk pre = true →
         parseArr sd f lvl (pre ++ items.text ++ 93 :: rest) acc = .ok (some (.arr (acc ++ items.values D)), rest)
-    | .nil, _, _, _, _, _, hn, _, _, _, _ => by simp [Items.isNil] at hn
-    | .cons w1 v w2 tl, f, lvl, pre, rest, acc, _, hv, hl, hf, hp => by
+    | .nil, _, _, _, _, _, hn, _, _, _, _, _ => by simp [Items.isNil] at hn
+    | .cons w1 v w2 tl, f, lvl, pre, rest, acc, _, hv, hk, hl, hf, hp => by
+      simp only [Items.toksOk, Bool.and_eq_true] at hk
       simp only [Items.need] at hf
       obtain ⟨g, rfl⟩ : ∃ g, f = g + 1 := ⟨f - 1, by omega⟩
       simp only [Items.valid, Bool.and_eq_true] at hv
@@ -365,14 +368,14 @@ mutual
       cases hi : tl.isNil
       · -- more items follow
         have hR : delim (w2 ++ 44 :: (tl.text ++ 93 :: rest)) = true := delim_after w2 44 _ hw2 (Or.inl rfl)
-        have hpv := parseValue_cst sd D hsd v g (lvl + 1) (pre ++ w1) (w2 ++ 44 :: (tl.text ++ 93 :: rest)) hvv
+        have hpv := parseValue_cst sd D ok hsd v g (lvl + 1) (pre ++ w1) (w2 ++ 44 :: (tl.text ++ 93 :: rest)) hvv hk.1
           (by omega) (by omega) hpre hR
         have htxt : pre ++ (Items.cons w1 v w2 tl).text ++ 93 :: rest =
             pre ++ w1 ++ v.text ++ (w2 ++ 44 :: (tl.text ++ 93 :: rest)) := by
           simp [Items.text, hi, List.append_assoc]
         rw [htxt, parseArr_step sd g lvl _ _ acc _ hpv (ws_head_ne w2 44 93 _ hw2 (by decide) (by decide))]
         have hpre2 : sepOk (w2 ++ [44]) = true := by rw [sepOk_append, wsOk_sepOk _ hw2, sepOk_comma]; rfl
-        have := parseArr_items sd D hsd tl g lvl (w2 ++ [44]) rest (acc ++ [v.value D]) hi htv (by omega) (by omega) hpre2
+        have := parseArr_items sd D ok hsd tl g lvl (w2 ++ [44]) rest (acc ++ [v.value D]) hi htv hk.2 (by omega) (by omega) hpre2
         simp only [List.append_assoc, List.cons_append, List.nil_append] at this
         rw [this]
         simp [Items.values]
@@ -384,7 +387,7 @@ mutual
             simp [Items.text, Items.isNil, List.append_assoc]
           have hR : delim (w2 ++ 93 :: rest) = true := delim_after w2 93 _ hw2 (Or.inr (Or.inl rfl))
           simp only [Items.need] at hf
-          have hpv := parseValue_cst sd D hsd v g (lvl + 1) (pre ++ w1) (w2 ++ 93 :: rest) hvv (by omega) (by omega) hpre hR
+          have hpv := parseValue_cst sd D ok hsd v g (lvl + 1) (pre ++ w1) (w2 ++ 93 :: rest) hvv hk.1 (by omega) (by omega) hpre hR
           rw [htxt]
           cases w2 with
           | nil =>
@@ -402,12 +405,13 @@ mutual
             rw [parseArr_close sd g' lvl (a :: as) rest _ (wsOk_sepOk _ hw2) (by omega)]
             simp [Items.values]
 
-  theorem parseObj_members (sd : SD) (D : Bytes → Nat) (hsd : SdSpec sd D) :
+  theorem parseObj_members (sd : SD) (D : Bytes → Nat) (ok : NumTok → Bool) (hsd : SdSpecOn ok sd D) :
       ∀ (ms : Members) (f lvl : Nat) (pre rest : Bytes) (acc : List (Bytes × JVal)), ms.isNil = false →
-        ms.valid = true → lvl + 1 + ms.depth ≤ maxNesting → ms.need ≤ f → sepOk pre = true →
+        ms.valid = true → ms.toksOk ok = true → lvl + 1 + ms.depth ≤ maxNesting → ms.need ≤ f → sepOk pre = true →
         parseObj sd f lvl (pre ++ ms.text ++ 125 :: rest) acc = .ok (some (.obj (acc ++ ms.values D)), rest)
-    | .nil, _, _, _, _, _, hn, _, _, _, _ => by simp [Members.isNil] at hn
-    | .cons w1 k w2 w3 v w4 tl, f, lvl, pre, rest, acc, _, hv, hl, hf, hp => by
+    | .nil, _, _, _, _, _, hn, _, _, _, _, _ => by simp [Members.isNil] at hn
+    | .cons w1 k w2 w3 v w4 tl, f, lvl, pre, rest, acc, _, hv, hto, hl, hf, hp => by
+      simp only [Members.toksOk, Bool.and_eq_true] at hto
       simp only [Members.need] at hf
       obtain ⟨g, rfl⟩ : ∃ g, f = g + 1 := ⟨f - 1, by omega⟩
       simp only [Members.valid, Bool.and_eq_true, Bool.not_eq_true'] at hv
@@ -420,11 +424,11 @@ mutual
           simp [Members.text, hi, List.append_assoc]
         have hk := parseKey_key (pre ++ w1) k w2 (w3 ++ v.text ++ (w4 ++ 44 :: (tl.text ++ 125 :: rest))) hpre hkv hkz hw2
         have hR : delim (w4 ++ 44 :: (tl.text ++ 125 :: rest)) = true := delim_after w4 44 _ hw4 (Or.inl rfl)
-        have hpv := parseValue_cst sd D hsd v g (lvl + 1) w3 (w4 ++ 44 :: (tl.text ++ 125 :: rest)) hvv
+        have hpv := parseValue_cst sd D ok hsd v g (lvl + 1) w3 (w4 ++ 44 :: (tl.text ++ 125 :: rest)) hvv hto.1
           (by omega) (by omega) (wsOk_sepOk _ hw3) hR
         rw [htxt, parseObj_step sd g lvl _ _ _ acc _ _ hk (value_head_ne125 w3 v _ hw3) hpv]
         have hpre2 : sepOk (w4 ++ [44]) = true := by rw [sepOk_append, wsOk_sepOk _ hw4, sepOk_comma]; rfl
-        have := parseObj_members sd D hsd tl g lvl (w4 ++ [44]) rest (acc ++ [(strValue k, v.value D)]) hi htv
+        have := parseObj_members sd D ok hsd tl g lvl (w4 ++ [44]) rest (acc ++ [(strValue k, v.value D)]) hi htv hto.2
           (by omega) (by omega) hpre2
         simp only [List.append_assoc, List.cons_append, List.nil_append] at this
         rw [this]
@@ -438,7 +442,7 @@ mutual
           have hk := parseKey_key (pre ++ w1) k w2 (w3 ++ v.text ++ (w4 ++ 125 :: rest)) hpre hkv hkz hw2
           have hR : delim (w4 ++ 125 :: rest) = true := delim_after w4 125 _ hw4 (Or.inr (Or.inr rfl))
           simp only [Members.need] at hf
-          have hpv := parseValue_cst sd D hsd v g (lvl + 1) w3 (w4 ++ 125 :: rest) hvv
+          have hpv := parseValue_cst sd D ok hsd v g (lvl + 1) w3 (w4 ++ 125 :: rest) hvv hto.1
             (by omega) (by omega) (wsOk_sepOk _ hw3) hR
           rw [htxt, parseObj_step sd g lvl _ _ _ acc _ _ hk (value_head_ne125 w3 v _ hw3) hpv]
           obtain ⟨g', rfl⟩ : ∃ g', g = g' + 1 := ⟨g - 1, by omega⟩
@@ -446,5 +450,18 @@ mutual
           simp [Members.values]
 end
 
+
+mutual
+  theorem Cst.toksOk_true : ∀ c : Cst, c.toksOk (fun _ => true) = true
+    | .null | .tru | .fals | .int _ _ | .str _ | .dbl _ => by simp [Cst.toksOk]
+    | .arr _ items => by simp [Cst.toksOk, Items.toksOk_true items]
+    | .obj _ ms => by simp [Cst.toksOk, Members.toksOk_true ms]
+  theorem Items.toksOk_true : ∀ i : Items, i.toksOk (fun _ => true) = true
+    | .nil => by simp [Items.toksOk]
+    | .cons _ v _ tl => by simp [Items.toksOk, Cst.toksOk_true v, Items.toksOk_true tl]
+  theorem Members.toksOk_true : ∀ m : Members, m.toksOk (fun _ => true) = true
+    | .nil => by simp [Members.toksOk]
+    | .cons _ _ _ _ v _ tl => by simp [Members.toksOk, Cst.toksOk_true v, Members.toksOk_true tl]
+end
 
 end IwModel.Json
